@@ -93,7 +93,7 @@ static recorder main_rec;
 static __thread recorder *rec = &main_rec;
 static __thread volatile int in_lib = 0;     /* inside a library call */
 static __thread volatile int in_rec = 0;     /* inside the recording allocator */
-static volatile unsigned long bypass_events = 0;
+static unsigned long bypass_events = 0;
 static int custom_installed = 0;
 static size_t alloc_limit = 0;               /* refuse (abort-like) giant requests: 0 = none */
 
@@ -214,22 +214,22 @@ static void r_free (void *o, size_t n)
 /* bypass detector: references to malloc & co. from statically linked objects */
 void *__wrap_malloc (size_t n)
 {
-  if (in_lib && !in_rec && custom_installed) { bypass_events++; monitor_msg ("BYPASS:malloc(%zu)", n); }
+  if (in_lib && !in_rec && custom_installed) { __atomic_fetch_add (&bypass_events, 1, __ATOMIC_RELAXED); monitor_msg ("BYPASS:malloc(%zu)", n); }
   return __real_malloc (n);
 }
 void *__wrap_calloc (size_t a, size_t b)
 {
-  if (in_lib && !in_rec && custom_installed) { bypass_events++; monitor_msg ("BYPASS:calloc"); }
+  if (in_lib && !in_rec && custom_installed) { __atomic_fetch_add (&bypass_events, 1, __ATOMIC_RELAXED); monitor_msg ("BYPASS:calloc"); }
   return __real_calloc (a, b);
 }
 void *__wrap_realloc (void *p, size_t n)
 {
-  if (in_lib && !in_rec && custom_installed) { bypass_events++; monitor_msg ("BYPASS:realloc(%zu)", n); }
+  if (in_lib && !in_rec && custom_installed) { __atomic_fetch_add (&bypass_events, 1, __ATOMIC_RELAXED); monitor_msg ("BYPASS:realloc(%zu)", n); }
   return __real_realloc (p, n);
 }
 void __wrap_free (void *p)
 {
-  if (in_lib && !in_rec && custom_installed) { bypass_events++; monitor_msg ("BYPASS:free"); }
+  if (in_lib && !in_rec && custom_installed) { __atomic_fetch_add (&bypass_events, 1, __ATOMIC_RELAXED); monitor_msg ("BYPASS:free"); }
   __real_free (p);
 }
 
@@ -282,6 +282,7 @@ typedef struct ctx {
 static ctx main_ctx;
 static __thread ctx *cur_ctx = &main_ctx;
 static long pagesz;
+static void exec_line (ctx *c, char *line);
 
 static void ctx_init (ctx *c)
 {
@@ -523,7 +524,9 @@ static char *next_tok (char **s)
 
 static mpz_ptr tok_z (ctx *c, const char *t)
 {
-  int i = atoi (t + 1);
+  int i;
+  if (t[0] == 'S') { c = &main_ctx; t++; }
+  i = atoi (t + 1);
   switch (t[0])
     {
     case 'Z': return i < NZ ? c->Z[i] : NULL;
@@ -563,11 +566,13 @@ static int do_call (ctx *c, char *s)
           if (*sp == 'I') mpz_clear (a->ptr);
           ia[ni++] = (long) a->ptr; break;
         case 'Q': case 'q': case 'K':
+          if (t[0] == 'S' && t[1] == 'Q' && *sp == 'q') { a->ptr = main_ctx.Q[atoi (t + 2) % NQ]; ia[ni++] = (long) a->ptr; break; }
           if (t[0] != 'Q' || atoi (t + 1) >= NQ) { bad (c, "bad-mpq-token", t); goto fail; }
           a->ptr = c->Q[atoi (t + 1)];
           if (*sp == 'K') mpq_clear (a->ptr);
           ia[ni++] = (long) a->ptr; break;
         case 'F': case 'f': case 'J':
+          if (t[0] == 'S' && t[1] == 'F' && *sp == 'f') { a->ptr = main_ctx.F[atoi (t + 2) % NF]; ia[ni++] = (long) a->ptr; break; }
           if (t[0] != 'F' || atoi (t + 1) >= NF) { bad (c, "bad-mpf-token", t); goto fail; }
           a->ptr = c->F[atoi (t + 1)];
           if (*sp == 'J') mpf_clear (a->ptr);
@@ -653,12 +658,17 @@ static int do_call (ctx *c, char *s)
         if (!A[k].written_alias)
           A[k].dig = A[k].role == 'z' ? dig_z (A[k].ptr) : A[k].role == 'q' ? dig_q (A[k].ptr) : dig_f (A[k].ptr);
       }
+  {
+    extern void par_enter (int), par_leave (int);
+    par_enter ((int) (f - ftab));
+  }
   in_lib = 1;
   if (f->ret[0] == 'd')
     rd = ((gfn_d) f->fn) (ia[0], ia[1], ia[2], ia[3], ia[4], ia[5], ia[6], ia[7], da[0], da[1]);
   else
     rl = ((gfn_l) f->fn) (ia[0], ia[1], ia[2], ia[3], ia[4], ia[5], ia[6], ia[7], da[0], da[1]);
   in_lib = 0;
+  { extern void par_leave (int); par_leave ((int) (f - ftab)); }
   if (!strcmp (name, "gmp_randinit_lc_2exp_size") && (int) rl == 0)
     {
       /* unsupported size: the state was not initialised */
@@ -756,6 +766,18 @@ fail:
 }
 
 #include "extra.inc"
+void par_enter (int k)
+{
+  int n;
+  if (k < 0 || k >= 1024) return;
+  n = __atomic_fetch_add (&par_inflight[k], 1, __ATOMIC_RELAXED);
+  if (n > 0)
+    {
+      __atomic_fetch_add (&par_overlap[k], 1, __ATOMIC_RELAXED);
+      if ((unsigned long) n + 1 > __atomic_load_n (&par_maxsim[k], __ATOMIC_RELAXED)) __atomic_store_n (&par_maxsim[k], (unsigned long) n + 1, __ATOMIC_RELAXED);
+    }
+}
+void par_leave (int k) { if (k >= 0 && k < 1024) __atomic_fetch_sub (&par_inflight[k], 1, __ATOMIC_RELAXED); }
 FILE *drv_stream (int w) { return w ? WS : RS; }
 
 /* ---------------------------------------------------------------- crash capture */
